@@ -473,7 +473,9 @@ def checkSearches (s : St) : St := Id.run do
       let offered (e : EndK) : Option (List P2) := match e with
         | .pin sh cls => some ((AdaptaVerif.Model.AStarPins.offeredPins ms sh cls).filterMap (fun p => (s.cur.pins.find? (·.id == p.id)).map (·.pos)))
         | _ => none
-      let sortPts (l : List P2) : List P2 := (l.toArray.qsort (fun a b => a.x < b.x || (a.x == b.x && a.y < b.y))).toList
+      -- sorted, without repetitions: two pins of a class at one position are one place (the library then shows one
+      -- pin edge at that place: quick seed 5 case 561)
+      let sortPts (l : List P2) : List P2 := ((l.toArray.qsort (fun a b => a.x < b.x || (a.x == b.x && a.y < b.y))).toList).eraseDups
       match h.iso, s.conns.find? (·.id == h.conn) with
       | some (isoSrc, isoDst), some cr =>
         -- the search failed before it started; the model agrees unless its pin state offers a pin to the end without edges
